@@ -219,6 +219,19 @@ def materialize_of_locked():
         ("payload-less leaf after a transfer there and back", dr.LeafRelation(it, frozenset({a}), payload=None, name="p2").transferred_to(it2).transferred_to(it)),
         ("an existing materialization", full.with_rows_satisfying(dr.ColumnExpression.reference(a).gt(dr.ColumnExpression.literal(0))).materialized(name="ml_m")),
     ]
+
+    class Tag(dr.MarkerRelation):
+        """An unlocked marker defined outside the library (it never changes engine or content)."""
+    mat = subjects[-1][1]
+    sqleaf = sq.conform(dr.LeafRelation(sq, frozenset({a}), payload=None, name="sqlpending2"))
+    subjects += [
+        ("a leaf seen through one user marker", Tag(target=full)),
+        ("a leaf seen through two stacked user markers", Tag(target=Tag(target=full))),
+        ("a leaf seen through three stacked user markers", Tag(target=Tag(target=Tag(target=full)))),
+        ("a materialization seen through two stacked user markers", Tag(target=Tag(target=mat))),
+        ("a SQL leaf in its SELECT wrapper seen through a user marker", Tag(target=sqleaf)),
+        ("a SQL leaf in its SELECT wrapper seen through two user markers", Tag(target=Tag(target=sqleaf))),
+    ]
     for what, rel in subjects:
         try:
             out = rel.materialized(name="ml_new")
